@@ -84,6 +84,19 @@ func (s *Scope) Synchronized() bool {
 	return ok
 }
 
+// Share makes the scope and all the scopes it inherits from synchronized. It
+// must be called before the scope is handed to another thread (go routine)
+// while the calling thread is still the only one that uses the scopes not
+// yet synchronized.
+func (s *Scope) Share() {
+	if !s.Synchronized() {
+		s.SetSynchronized(true)
+	}
+	for _, p := range s.parents {
+		p.Share()
+	}
+}
+
 // Lock the scope to synchronize changes.
 func (s *Scope) Lock() {
 	s.locker.Lock()
